@@ -141,6 +141,9 @@ func (g *gen) genRule(name string, earlier []*ruleDef) *ruleDef {
 	repo := repoOf(name)
 	var earlierFS, earlierBu []string
 	for _, e := range earlier {
+		if e.kind == "fs" && strings.HasSuffix(e.name, ".txt") {
+			continue // a rule that shares its name with a source file is never included
+		}
 		if e.kind == "fs" {
 			earlierFS = append(earlierFS, e.name)
 		} else {
@@ -528,7 +531,69 @@ func (g *gen) scenario() int {
 		g.buildFull()
 	}
 	before := len(g.ops)
-	switch g.r.Intn(9) {
+	switch g.r.Intn(11) {
+	case 9: // a rule changes its kind (file_set -> bundle -> file_set) while a dependant keeps including it
+		var fsi []int
+		for i, r := range g.rules {
+			if r.kind == "fs" && !strings.HasSuffix(r.name, ".txt") {
+				fsi = append(fsi, i)
+			}
+		}
+		if len(fsi) > 0 && len(g.src) > 0 && len(g.rules) < 9 {
+			i := hx.Pick(g.r, fsi)
+			x := g.rules[i]
+			withY := cloneRules(g.rules)
+			withY = append(withY, &ruleDef{kind: "fs", name: g.newRuleName(), incs: []string{x.name}})
+			g.setRules(withY)
+			g.buildFull()
+			flipped := cloneRules(withY)
+			b := &ruleDef{kind: "bu", name: x.name}
+			if i > 0 {
+				b.deps = []string{withY[g.r.Intn(i)].name}
+			} else {
+				b.deps = []string{hx.Pick(g.r, g.srcNames())}
+			}
+			flipped[i] = b
+			g.setRules(flipped)
+			g.buildFull()
+			if g.r.Bool() { // the rule disappears altogether, the dependant still names it
+				gone := append(cloneRules(withY)[:i:i], cloneRules(withY)[i+1:]...)
+				g.setRules(gone)
+				g.buildFull()
+			}
+			g.setRules(withY)
+			g.buildFull()
+			g.rep.Count("gen:scenario-rule-kind-flips")
+		}
+	case 10: // a source file and a rule share a name; a file set selects it by glob or lists it by name
+		if len(g.rules) < 8 {
+			repo := hx.Pick(g.r, g.repos)
+			g.nextRule++
+			shared := fmt.Sprintf("%s/t%d.txt", repo, g.nextRule)
+			other := hx.Pick(g.r, g.repos)
+			rs := cloneRules(g.rules)
+			x := &ruleDef{kind: "bu", name: shared, deps: []string{rs[g.r.Intn(len(rs))].name}}
+			if g.r.Bool() {
+				x = &ruleDef{kind: "fs", name: shared}
+			}
+			rs = append(rs, x)
+			y := &ruleDef{kind: "fs", name: g.newRuleName()}
+			if repoOf(y.name) == repo && g.r.Bool() {
+				y.sel = []pat{{dir: repo, suffix: ".txt"}}
+			} else {
+				y.files = []string{shared}
+			}
+			_ = other
+			rs = append(rs, y)
+			g.setSrc(shared, sstat{g.size(), g.nextMtime(), 0o644, ""})
+			g.setRules(rs)
+			g.buildFull()
+			st := g.src[shared]
+			st.size, st.mtime = st.size+1+int64(g.r.Intn(5)), g.nextMtime()
+			g.setSrc(shared, st)
+			g.buildFull()
+			g.rep.Count("gen:scenario-name-shared-by-source-and-rule")
+		}
 	case 7: // same-size edit or touch a hair away in time (same second, next second), build
 		if n, ok := g.pickRegular(); ok {
 			st := g.src[n]
